@@ -64,6 +64,57 @@ def gen_letter_cases(tier, seed, tag, pairs_per_group, n_pres=2):
     return cases
 
 
+def gen_fixed_cases(tier, seed, tag, combos_per_group, n_pres=3):
+    """Cubic crystals that occupy only parameter-free Wyckoff positions (no general orbit): the family for which
+    C06 demands an identical conventional cell.  Letter combinations come from MatID's table (generation only)."""
+    import itertools
+    import sys as _sys
+    from harness import env as _env
+    if _env.REPO not in _sys.path[:1]:
+        _sys.path.insert(0, _env.REPO)
+    from matid.data.symmetry_data import WYCKOFF_SETS
+    rng = np.random.default_rng([seed, tag, 77])
+    cases = []
+    cid = 20_000_000
+    for no in range(195, 231):
+        fixed = sorted(l for l, v in WYCKOFF_SETS[no].items() if l != "translations" and len(v["variables"]) == 0)
+        combos = [c for k in (2, 3) for c in itertools.permutations(fixed, k)]
+        if not combos:
+            continue
+        if len(combos) > combos_per_group:
+            combos = [combos[i] for i in rng.choice(len(combos), size=combos_per_group, replace=False)]
+        for c in combos:
+            s = int(rng.integers(1 << 31))
+            for j in range(n_pres):
+                cases.append({"kind": "fixed", "crystal": cid, "group_no": no, "letters": list(c), "seed": s, "pres": j, "group": j % 2})
+            cid += 1
+    return cases
+
+
+def make_fixed_crystal(rng, no, letters, tol):
+    from matid.data.symmetry_data import WYCKOFF_SETS
+    from oracles import exprs
+    from ase.spacegroup import crystal
+    from ase import Atoms
+    table = WYCKOFF_SETS[no]
+    pts = [tuple(np.mod(exprs.evaluate(table[l]["expressions"][0], {}), 1.0)) for l in letters]
+    zs = sorted(int(z) for z in rng.choice(cg.SPECIES, size=len(letters), replace=False))[::-1]   # heaviest on the first letter
+    a0 = float(rng.uniform(5.0, 9.0))
+    try:
+        a = crystal(zs, pts, spacegroup=no, cellpar=[a0, a0, a0, 90, 90, 90], onduplicates="error", primitive_cell=bool(rng.random() < 0.5), symprec=1e-4)
+    except Exception as e:
+        return None, None, {"crystal():" + type(e).__name__: 1}
+    if len(a) > 140 or cg.min_distance(a) < 0.7:
+        return None, None, {"too_many_or_too_close": 1}
+    a = Atoms(numbers=a.get_atomic_numbers(), positions=a.get_positions(), cell=a.get_cell().array, pbc=True)
+    ok, reason, ds = cg.stable(a, no, tol)
+    if not ok:
+        return None, None, {reason: 1}      # typically: only parameter-free sites occupied -> a supergroup
+    meta = {"group": no, "cellpar": [a0] * 3 + [90] * 3, "basis": [list(map(float, p_)) for p_ in pts], "symbols": zs,
+            "orbit_kinds": ["fixed_%s" % l for l in letters], "primitive_input": False, "natoms": len(a), "system": "cubic", "tries": 1}
+    return a, meta, {}
+
+
 def make_letter_crystal(rng, no, letters, tol, tries=25):
     from matid.data.symmetry_data import WYCKOFF_SETS
     from oracles import exprs
@@ -121,6 +172,8 @@ def crystal_for(case):
         rng = np.random.default_rng(case["seed"])
         if case.get("kind") == "letters":
             _cache[key] = make_letter_crystal(rng, case["group_no"], case["letters"], TOL)
+        elif case.get("kind") == "fixed":
+            _cache[key] = make_fixed_crystal(rng, case["group_no"], case["letters"], TOL)
         else:
             _cache[key] = cg.make_crystal(rng, case["group_no"], TOL, special_bias=case.get("special_bias", 0.5))
     atoms, meta, discards = _cache[key]
@@ -206,8 +259,8 @@ def run_crystal_case(case, want, exception_monitor, exception_key_prefix):
                       "%s raised %s" % (gname, msg), {"input": sym.describe(atoms), "group": case["group_no"], "symmetry_tol": TOL})
     out = rec.export()
     kinds = "+".join(sorted(set(k.rstrip("0123456789") for k in meta["orbit_kinds"])))
-    if case.get("kind") == "letters":
-        kinds = "letters:" + "".join(case["letters"])
+    if case.get("kind") in ("letters", "fixed"):
+        kinds = case["kind"] + ":" + "".join(case["letters"])
     out["info"] = {"key": "%d|%s|%s|p%d" % (case["group_no"], kinds, len(atoms), case["pres"]), "nontrivial": True,
                    "classes": {"space_group": case["group_no"], "crystal_system": meta["system"], "orbit_kinds": kinds,
                                "presentation": "as_generated" if case["pres"] == 0 else
